@@ -101,6 +101,9 @@ def _mk(ex, node, name, env, ghost):
                 raise Unsupported(f"no factory for obj('{cls}')")
             kws = {k: ast.literal_eval(v) for k, v in kw.items()}
             return FACTORIES[cls](ex, name, env, **kws)
+        if f == "dtype":
+            from .engine import DType
+            return DType(ast.literal_eval(node.args[0]))
         if f == "listof":
             n = int(ast.literal_eval(node.args[1]))
             return [_mk(ex, node.args[0], f"{name}{i}", env, {}) for i in range(n)]
